@@ -29,10 +29,16 @@ inductive Err where
   deriving DecidableEq, Repr, Inhabited
 
 /-- how a read ends when the peer has nothing more to say -/
-inductive Tail where | eof | silent
+inductive Tail where
+  | eof | silent
+  | deaf      -- the peer stops receiving just before its last message (shutdown of its read side, or it dies with the message
+              -- in flight) and then closes: the reply to that message cannot be written
   deriving DecidableEq, Repr, Inhabited
 
-def Tail.err : Tail → Err | .eof => .eof | .silent => .timeout
+def Tail.err : Tail → Err | .eof => .eof | .silent => .timeout | .deaf => .eof
+
+/-- can the reply to a message be written?  `rest` = what the peer sends after that message -/
+def canReply (rest : List Msg) (tail : Tail) : Bool := !(tail = .deaf && rest.isEmpty)
 
 structure Result where
   res     : Option Err          -- none = success
@@ -101,24 +107,31 @@ def server (inp : List Msg) (tail : Tail) : Result :=
       | .exVer cv =>
         let ver := min cv maxVersion
         let s1 := [Msg.exVer maxVersion]
+        if !canReply inp1 tail then { res := some .eof, version := ver, mapped := none, sent := [] } else
         match next inp1 tail with
         | .error e => { res := some e, version := ver, mapped := none, sent := s1 }
         | .ok (m2, inp2) =>
           match m2 with
           | .metaFile _ mem good =>
-            if good then { res := none, version := ver, mapped := some mem, sent := s1 ++ [.ackShm] }
+            if good then
+              -- the memory is mapped, then the acknowledgement is written: if that fails newSession undoes the mapping
+              if canReply inp2 tail then { res := none, version := ver, mapped := some mem, sent := s1 ++ [.ackShm] }
+              else { res := some .eof, version := ver, mapped := none, sent := s1 }
             else { res := some .mapping, version := ver, mapped := none, sent := s1 }
           | .metaMemfd _ _ =>
+            if !canReply inp2 tail then { res := some .eof, version := ver, mapped := none, sent := s1 } else
             let s2 := s1 ++ [.ackReadyFd]
             match next inp2 tail with
             | .error e =>
               -- recvmsg returns (0, 0, nil) on a closed connection: reported as "expect oobnLen", not as EOF
               { res := some (if e = .eof then .proto else e), version := ver, mapped := none, sent := s2 }
-            | .ok (m3, _) =>
+            | .ok (m3, inp3) =>
               match m3 with
               | .fds mem' good =>
                 -- the descriptors are what gets mapped; the paths of the metadata only name it
-                if good then { res := none, version := ver, mapped := some mem', sent := s2 ++ [.ackShm] }
+                if good then
+                  if canReply inp3 tail then { res := none, version := ver, mapped := some mem', sent := s2 ++ [.ackShm] }
+                  else { res := some .eof, version := ver, mapped := none, sent := s2 }
                 else { res := some .mapping, version := ver, mapped := none, sent := s2 }
               | _ => { res := some .proto, version := ver, mapped := none, sent := s2 }
           | _ => { res := some .proto, version := ver, mapped := none, sent := s1 }
